@@ -4,6 +4,7 @@ mod checks;
 mod cli;
 mod dom;
 mod eval;
+mod ext_ref;
 mod generators;
 mod ir;
 mod ops;
